@@ -11,7 +11,8 @@ from .core import Sub, Outcome, target
 
 PID = 'C02'
 SHARDS = {'quick': 8, 'thorough': 16}
-RULE = ('(wertheim-thiele) one-component hard spheres, PY with and without the hard-core flag, eta in [0.02,0.47] (continuation in eta), '
+RULE = ('(wertheim-thiele) one-component hard spheres, PY with and without the hard-core flag, eta in [0.02,0.47] (continuation in eta; fresh Systems or '
+        'one System swept over diameter / density / domain), '
         'r_max in {10.24, 20.48}, base dr in {0.04, 0.02}, refinement family dr, dr/2, dr/4: contact value (linear extrapolation of the '
         'first two grid points outside the core), S(k) at the 64 lowest k (shared by the family) against 1/(1-rho c_WT(k)) with c_WT(k) by '
         'Gauss-Legendre quadrature, S(k_min) against (1-eta)^4/(1+2eta)^2, c(r) at fixed r in {0.2,0.4,0.8,1.52} (grid points of every member) (on a copy) -- each '
@@ -39,15 +40,35 @@ def c2_eta(eta):
     return 0.03 + 4.0 * eta ** 2 / (1.0 - eta) ** 3
 
 
-def solve_hs(eta, L, dr, flag, guess=None):
+def hs_system(flag):
+    """a System that has already been used once with another diameter, density and domain (parameter sweeps re-use one System)"""
     P = target()
     s = P.System(['A'], kT=1.0)
-    s.domain = P.Domain(length=L, dr=dr)
-    s.density['A'] = 6.0 * eta / math.pi
-    s.diameter['A'] = 1.0
+    s.domain = P.Domain(length=64, dr=0.25)
+    s.density['A'] = 0.01
+    s.diameter['A'] = 0.5
     s.potential['A', 'A'] = P.potential.HardSphere()
     s.closure['A', 'A'] = P.closure.PercusYevick(apply_hard_core=flag)
     s.omega['A', 'A'] = P.omega.SingleSite()
+    S.quiet(s.createPRISM)
+    s.diameter['A'] = 1.0
+    return s
+
+
+def solve_hs(eta, L, dr, flag, guess=None, swept=None):
+    P = target()
+    if swept is not None:
+        s = swept
+        s.domain = P.Domain(length=L, dr=dr)
+        s.density['A'] = 6.0 * eta / math.pi
+    else:
+        s = P.System(['A'], kT=1.0)
+        s.domain = P.Domain(length=L, dr=dr)
+        s.density['A'] = 6.0 * eta / math.pi
+        s.diameter['A'] = 1.0
+        s.potential['A', 'A'] = P.potential.HardSphere()
+        s.closure['A', 'A'] = P.closure.PercusYevick(apply_hard_core=flag)
+        s.omega['A', 'A'] = P.omega.SingleSite()
     pr = S.quiet(s.createPRISM)
     try:
         res = S.quiet(pr.solve, guess=guess, method='krylov', options={'disp': False, 'fatol': 1e-9, 'maxiter': 200})
@@ -90,7 +111,7 @@ class WertheimThiele(Sub):
 
     def strategy(self, tier):
         return st.fixed_dictionaries({'eta': specs.fl(0.02, 0.47, 4), 'rmax': st.sampled_from([10.24, 20.48]), 'dr0': st.sampled_from([0.04, 0.02]),
-                                      'flag': st.booleans()})
+                                      'flag': st.booleans(), 'via': st.sampled_from(['fresh', 'swept'])})
 
     def check(self, spec):
         P = target()
@@ -99,12 +120,13 @@ class WertheimThiele(Sub):
         eta, rmax, dr0, flag = spec['eta'], spec['rmax'], spec['dr0'], spec['flag']
         rho = 6.0 * eta / math.pi
         fam = []
+        swept = hs_system(flag) if spec.get('via') == 'swept' else None
         for lev in range(3):
             L = int(round(rmax / dr0)) * 2 ** lev
             dr = rmax / L
             guess, pr = None, None
             for e in (0.25 * eta, 0.5 * eta, 0.75 * eta, eta):
-                pr, res = solve_hs(e, L, dr, flag, guess)
+                pr, res = solve_hs(e, L, dr, flag, guess, swept)
                 if res is None or not res.success:
                     out.skipped = 'not-converged'
                     return out
@@ -120,7 +142,7 @@ class WertheimThiele(Sub):
             idx = [int(round(x / dr)) - 1 for x in (0.2, 0.4, 0.8, 1.52)]
             fam.append({'gc': 2 * g[i1] - g[i1 + 1], 'S': Sk, 'k': k, 'c': c[idx], 'r': r[idx], 'inside': float(np.max(np.abs(g[r <= 1.0])))})
         out.nontrivial = eta >= 0.05
-        out.label('flag' if flag else 'no-flag', 'eta<0.2' if eta < 0.2 else ('eta<0.35' if eta < 0.35 else 'eta>=0.35'))
+        out.label('system=' + spec.get('via', 'fresh'), 'flag' if flag else 'no-flag', 'eta<0.2' if eta < 0.2 else ('eta<0.35' if eta < 0.35 else 'eta>=0.35'))
         detail = 'eta=%.4g r_max=%g dr0=%g flag=%s' % (eta, rmax, dr0, flag)
         C, C2 = c_eta(eta), c2_eta(eta)
         gx = O.wt_contact(eta)
